@@ -13,7 +13,7 @@ EXPLANATION = (
     "counterpart exists in deserialize."
     " (e) serde attribute symmetry on every type reachable from Checkpoint (attributes recovered by the extractor): a field omitted on output (skip_serializing[_if]) must be defaultable on input (Option or #[serde(default)]), no state field is skipped, custom codecs come in pairs."
 )
-DECIDED = ["variant bijection of the value converters", "millisecond truncation sites on the save path", "non-finite float representability in the JSON codec", "codec arms per format", "what the derived Serialize omits the derived Deserialize can default"]
+DECIDED = ["variant bijection of the value converters", "millisecond truncation sites on the save path", "non-finite float representability in the JSON codec", "codec arms per format", "what the derived Serialize omits the derived Deserialize can default", "both Event <-> SerializableEvent converters copy every payload entry"]
 NOT_DECIDED = ["contents of nested containers beyond the variant mapping", "format auto-detection on arbitrary bytes"]
 
 P = "varpulis_runtime::persistence::"
